@@ -56,13 +56,16 @@ META = {
 }
 GENERATORS = (c08_memo.gen_memo_table,)
 
-PROPERTY_CODES = ('restore', 'refine', 'stale')
+PROPERTY_CODES = ('restore', 'refine', 'stale', 'rel')
 WHAT = {
     'restore': 'cwd / sys.argv after the call differ from before it',
     'refine': 'the result returned is not the run of the content the requested file holds at request time',
     'stale': ('GeophiresXClient returns the cached result of the OLD file content after the input file was rewritten/deleted '
               '(cache keyed by hash(file path) only)'),
     'impure': 'the same input gives numerically different output in this history than in a fresh process',
+    'rel': ('a request whose from_file_path is RELATIVE is resolved against the directory of the program (its main() chdirs there '
+            'before opening the file), not against the caller\'s working directory: the caller gets the run of another file, or '
+            'a failure although its own file exists'),
 }
 
 
@@ -86,11 +89,11 @@ def _signatures(session, result):
             moved = True
         elif op[0] in ('write', 'delete'):
             changed.add(op[1])
-        elif op[0] in ('get', 'getdict', 'getmix', 'cli'):
+        elif op[0] in ('get', 'getdict', 'getmix', 'cli', 'hip'):
             p = op[2] if op[0] != 'cli' else op[1]
-            cache = caching[op[1]] if op[0] != 'cli' and op[1] < len(caching) else None
+            cache = caching[op[1]] if op[0] not in ('cli', 'hip') and op[1] < len(caching) else None
             out = (o[0], bool(o[2])) if o[0] == 'ret' else (o[0], o[1] if o[0] == 'raised' else None)
-            sigs.append((op[0], out, cache, prev, moved, p in changed))
+            sigs.append((op[0] + ('-rel' if p in S.REL else ''), out, cache, prev, moved, p in changed))
             prev, moved = out[0], False
             changed.discard(p)
     return sigs
@@ -99,7 +102,7 @@ def _signatures(session, result):
 def evaluate(ctx, part0, sessions, contents, refs, do_minimize=True, tag=None):
     """Run sessions on the real code, check them in Coq, file violations.  -> (worker results, lru_cache hit totals)"""
     for s in sessions:
-        refs.ensure(S.contents_used(s))
+        S.ensure_refs(refs, s)
     tag = tag or part0
     results = S.run_sessions(ctx, sessions, contents, tag)
     codes = S.check_sessions(ctx, tag, sessions, results, refs)
@@ -154,7 +157,7 @@ def _still(ctx, cands, contents, refs, key):
     """Which candidate sessions still show a violation with this key (each executed in a fresh process)."""
     _still.n = getattr(_still, 'n', 0) + 1
     for s in cands:
-        refs.ensure(S.contents_used(s))
+        S.ensure_refs(refs, s)
     results = S.run_sessions(ctx, cands, contents, f'min{_still.n}')
     codes = S.check_sessions(ctx, f'min{_still.n}', cands, results, refs)
     out = []
@@ -178,10 +181,14 @@ def build_pool(ctx, n, with_mixes=True):
         elif r[0] != 'ret':
             bad_ids.append(c)
     mixes = S.combos(contents, ok_ids[:2] + ok_ids[-1:] + bad_ids[:1]) if with_mixes else []
-    refs.ensure(range(len(contents)))
+    contents.append(S.src_example_text())       # what a relative Examples/salton_sea.txt names in the source directory
+    extra = {'src_content': len(contents) - 1, 'hip_ids': list(range(len(contents), len(contents) + len(S.HIP_TEXTS)))}
+    geo = len(contents)
+    contents += S.HIP_TEXTS
+    refs.ensure(range(geo))
     ctx.count('pool', evaluations=len(contents), contents_ok=len(ok_ids), contents_failing=len(bad_ids), base_plus_params=len(mixes),
               failing_kinds={refs.of(c)[2][:60]: 1 for c in bad_ids})
-    return contents, refs, ok_ids, bad_ids, mixes
+    return contents, refs, ok_ids, bad_ids, mixes, extra
 
 
 def memo_ties(ctx, entries, memo_hits):
@@ -249,20 +256,22 @@ def memo_ties(ctx, entries, memo_hits):
 
 def correspondence(ctx, proofs_ok=True):
     entries = c08_memo.scan()
-    contents, refs, ok_ids, bad_ids, mixes = build_pool(ctx, 12 if ctx.quick else 36)
+    contents, refs, ok_ids, bad_ids, mixes, extra = build_pool(ctx, 12 if ctx.quick else 36)
     memo_hits = {}
     sessions = []
     for d in corpus_sessions():   # corpus sessions carry their own contents: give them ids after the pool
         base = len(contents)
         contents += d['contents']
-        ops = S.map_contents(d['ops'], lambda c: c + base)
-        sessions.append(dict(d, ops=ops, part='corpus'))
+        if d.get('src_content') == '@src':   # the source tree's own file behind the relative name, as it is NOW
+            contents.append(S.src_example_text())
+            d['src_content'] = len(contents) - 1 - base
+        sessions.append(dict(S.remap_session(d, lambda c, base=base: c + base), part='corpus'))
     rnd = ctx.rng
     seeds = ['0', '1'] + [str(rnd.randrange(2, 2 ** 32)) for _ in range(ctx.n(2, 6))]
     boost = ctx.quick and getattr(ctx, 'boost', False)   # modelled source changed: twice the quick volume (x4 would exceed the quick budget)
     n = 96 if boost else (48 if ctx.quick else 800)
     lo, hi = (12, 40) if ctx.quick else (20, 60)   # not through ctx.n: it scales numbers
-    sessions += [S.gen_session(rnd, ok_ids, bad_ids, rnd.randint(lo, hi), seeds, mixes) for _ in range(n)]
+    sessions += [S.gen_session(rnd, ok_ids, bad_ids, rnd.randint(lo, hi), seeds, mixes, **extra) for _ in range(n)]
     batch = 240
     for lo in range(0, len(sessions), batch):
         _, mh = evaluate(ctx, 'histories', sessions[lo:lo + batch], contents, refs, tag=f'h{lo // batch}')
@@ -275,9 +284,9 @@ def correspondence(ctx, proofs_ok=True):
 
 def search(ctx):
     """Only model/proof disagreements so far: look for a history on which the PROPERTY fails on the real code."""
-    contents, refs, ok_ids, bad_ids, mixes = build_pool(ctx, 12)
+    contents, refs, ok_ids, bad_ids, mixes, extra = build_pool(ctx, 12)
     rnd = ctx.rng
-    sessions = [S.gen_session(rnd, ok_ids, bad_ids, rnd.randint(15, 50), ['0', '1', str(rnd.randrange(2, 2 ** 32))], mixes)
+    sessions = [S.gen_session(rnd, ok_ids, bad_ids, rnd.randint(15, 50), ['0', '1', str(rnd.randrange(2, 2 ** 32))], mixes, **extra)
                 for _ in range(ctx.n(96, 480))]
     evaluate(ctx, 'search', sessions, contents, refs)
 
@@ -286,16 +295,18 @@ def replay(ctx, data):
     s = data['input']['session']
     contents = s['contents']
     refs = S.References(ctx, contents)
-    refs.ensure(S.contents_used(s))
+    S.ensure_refs(refs, s)
     r = S.run_sessions(ctx, [s], contents, 'replay')[0]
     codes = S.check_sessions(ctx, 'replay', [s], [r], refs)[0]
     impure = S.impure_steps(s, r, refs)
-    d2c = refs.content_of_digest(S.contents_used(s))
+    d2c = refs.content_of_digest(S.geo_contents(s))
     print(f'session: cwd=d{s["cwd"]} argv={s["argv"]} PYTHONHASHSEED={s["hashseed"]}; contents that run in a fresh process: '
-          f'{refs.okc(S.contents_used(s))}')
+          f'{refs.okc(S.geo_contents(s))}; relative names: {S.REL}')
     for i, (op, b) in enumerate(zip(s['ops'], r['obs'])):
         o = b['out']
-        shown = f'result of content {d2c.get(o[1], "?")}{" (cache hit)" if o[2] else ""}' if o[0] == 'ret' else ' '.join(map(str, o[:2]))
+        shown = ' '.join(map(str, o[:2]))
+        if o[0] == 'ret':
+            shown = 'HIP-RA result ' + o[1][:8] if op[0] == 'hip' else f'result of content {d2c.get(o[1], "?")}{" (cache hit)" if o[2] else ""}'
         flags = [c for j, c in codes if j == i] + ['impure' for j, _ in impure if j == i]
         print(f'  {i:2d} {str(op):38s} -> {shown:34s} cwd={b["cwd_after"]} argv={b["argv_after"]}  '
               f'{"<-- " + ",".join(flags) if flags else ""}')
